@@ -9,6 +9,12 @@ package main
 // definitions (inside a lemma proof the same Go operators translate to tdiv/trem/div/mod) and then available as a
 // quantified fact about the opaque functions.
 
+// opaqueNLDiv: the function under verification asked for it (`option nldiv=opaque`); the default is the exact
+// (nonlinear) definition, which the solvers handle when the divisor ranges over a few constants.
+func (c *FuncCtx) opaqueNLDiv() bool {
+	return c.rootCon != nil && c.rootCon.Options["nldiv"] == "opaque"
+}
+
 func (c *FuncCtx) nlDivDecls() {
 	if c.needed["nl_div_decls"] {
 		return
